@@ -920,6 +920,25 @@ def run_ifhist(case):
     for k_, fm_ in enumerate(Gf.forms):
         if fm_.fun is not None:
             fm_.fun = fm_.fun * (1.7 + k_)
+    # linearity in the integrand over many magnitudes (other stress / length units: a density of 7.85e-9 t/mm^3, micrometre
+    # geometry in metres): the form of s x integrand assembles to s x matrix, also when all cell values are below 1e-8
+    for sc in (1e-6, 1e-9, 1e-13, 1e-20, 1e7):
+        Fs = arrform()
+        for fm_ in Fs.forms:
+            if fm_.fun is not None:
+                fm_.fun = fm_.fun * sc
+        for kw_ in (dict(), dict(parallel=True)):
+            got = Fs.assemble(**kw_).toarray()
+            c.trans += 1
+            c.cmp(f"scaled-integrand/s={sc}/{kw_}", "form of s x integrand assembles to s x (matrix of the integrand)", got / sc, base, 1e-12)
+    # ... and in the measure dV (the same body in another length unit)
+    for sc in (1e-9, 1e-18):
+        Fs = arrform()
+        for fm_ in Fs.forms:
+            fm_.dV = fm_.dV * sc
+        got = Fs.assemble().toarray()
+        c.trans += 1
+        c.cmp(f"scaled-dV/s={sc}", "form with s x dV assembles to s x matrix", got / sc, base, 1e-12)
     ops = "IOGXAVB"
     nseq = 0
     for depth in (1, 2, 3):
